@@ -8,6 +8,8 @@ package main
 //   demux : the io.Reader returned by Do is read with scripted buffer sizes over a scripted
 //           responder byte stream delivered in scripted segments; delivered bytes, error class
 //           and the diverted stderr (hook VerifStderr) are observed.
+//   child : the same handler against Go's own net/http/fcgi responder (an independent
+//           standard-conforming peer): what that responder understood and what the client got back.
 //   serve : the fastcgi directive's real setup + Handler.ServeHTTP on a real directory tree
 //           against a byte-level loopback responder that captures the request bytes and
 //           replies with a scripted framing; outcome, received bytes and the client-side
@@ -23,6 +25,7 @@ import (
 	"io"
 	"net"
 	"net/http"
+	"net/http/fcgi"
 	"net/http/httptest"
 	"net/url"
 	"os"
@@ -177,6 +180,7 @@ type c13In struct {
 	HasBody bool    `json:"hasbody,omitempty"`
 	Body    c13S    `json:"body,omitempty"`
 	Script  []int   `json:"script,omitempty"` // read sizes of the body reader
+	WT      bool    `json:"wt,omitempty"`     // the body reader implements io.WriterTo (bytes.Reader)
 	// demux (and the responder's reply in serve)
 	Recs   []c13Rec `json:"recs,omitempty"`
 	Tail   c13S     `json:"tail,omitempty"`
@@ -265,6 +269,15 @@ func c13PairLen(n int) int {
 	return 1
 }
 
+// c13BodyReader: a reader with scripted read sizes, or (WT) one that implements io.WriterTo as
+// io.NopCloser(bytes.NewReader(..)) does — io.Copy then hands the whole body to Write at once.
+func c13BodyReader(in *c13In, body []byte) io.ReadCloser {
+	if in.WT {
+		return io.NopCloser(bytes.NewReader(append([]byte(nil), body...)))
+	}
+	return &scriptReader{data: append([]byte(nil), body...), script: append([]int(nil), in.Script...), eofd: len(in.Script)%2 == 1}
+}
+
 // ---------- wire ----------
 func c13RunWire(in *c13In) (res Result) {
 	params := map[string]string{}
@@ -294,7 +307,7 @@ func c13RunWire(in *c13In) (res Result) {
 		}()
 		var rd io.Reader
 		if in.HasBody {
-			rd = &scriptReader{data: append([]byte(nil), body...), script: append([]int(nil), in.Script...), eofd: len(in.Script)%2 == 1}
+			rd = c13BodyReader(in, body)
 		}
 		cl.Do(params, rd)
 	}()
@@ -445,7 +458,7 @@ func (s *c13Responder) handle(cn net.Conn) {
 	s.mu.Lock()
 	seq, resp := s.seq, s.resp
 	s.mu.Unlock()
-	cn.SetDeadline(time.Now().Add(4 * time.Second))
+	cn.SetDeadline(time.Now().Add(1200 * time.Millisecond))
 	br := bufio.NewReaderSize(cn, 1<<16)
 	var raw []byte
 	for done := false; !done; {
@@ -606,7 +619,7 @@ func c13RunServe(in *c13In) Result {
 	u := &url.URL{Path: in.Path, RawQuery: in.Query}
 	req := &http.Request{Method: in.Method, URL: u, Proto: in.Proto, ProtoMajor: 1, ProtoMinor: 1, Header: hdr,
 		Host: in.Host, RemoteAddr: in.Remote, ContentLength: in.CL,
-		Body: &scriptReader{data: append([]byte(nil), body...), script: append([]int(nil), in.Script...), eofd: len(in.Script)%2 == 1}}
+		Body: c13BodyReader(in, body)}
 	ctx := context.WithValue(context.Background(), httpserver.OriginalURLCtxKey, *u)
 	ctx = context.WithValue(ctx, casket.CtxKey("path_prefix"), in.Prefix)
 	if in.User != "" {
@@ -643,7 +656,7 @@ func c13RunServe(in *c13In) Result {
 	contacted := false
 	wait := 2 * time.Millisecond
 	if panicked == "" && !nextCalled && status != 500 {
-		wait = 6 * time.Second
+		wait = 3 * time.Second
 	}
 	deadline := time.After(wait)
 poll:
@@ -741,9 +754,190 @@ func c13BoundaryHeader(h http.Header) bool {
 	return false
 }
 
+// ---------- child: Go's net/http/fcgi responder as an independent conforming peer ----------
+type c13ChildSeen struct {
+	method, uri, host string
+	hdr               http.Header
+	env               map[string]string
+	body              []byte
+}
+
+var (
+	c13ChildOnce sync.Once
+	c13ChildLn   net.Listener
+	c13ChildMu   sync.Mutex
+	c13ChildIn   *c13In
+	c13ChildGot  = make(chan c13ChildSeen, 16)
+)
+
+func c13ChildSetup() {
+	c13ChildOnce.Do(func() {
+		ln, err := net.Listen("tcp", "127.0.0.1:0")
+		if err != nil {
+			panic(err)
+		}
+		c13ChildLn = ln
+		go fcgi.Serve(ln, http.HandlerFunc(func(w http.ResponseWriter, r *http.Request) {
+			c13ChildMu.Lock()
+			in := c13ChildIn
+			c13ChildMu.Unlock()
+			b, _ := io.ReadAll(r.Body)
+			c13ChildGot <- c13ChildSeen{r.Method, r.URL.RequestURI(), r.Host, r.Header.Clone(), fcgi.ProcessEnv(r), b}
+			code := 200
+			for _, f := range in.Fields {
+				if http.CanonicalHeaderKey(f[0]) == "Status" {
+					code, _ = strconv.Atoi(strings.SplitN(f[1], " ", 2)[0])
+				} else {
+					w.Header().Add(f[0], f[1])
+				}
+			}
+			w.WriteHeader(code)
+			rb := c13Expand(in.RBody)
+			for len(rb) > 0 { // several writes: the child frames them as it likes
+				n := 1 + len(rb)/3
+				w.Write(rb[:n])
+				rb = rb[n:]
+			}
+		}))
+	})
+}
+
+func c13RunChild(in *c13In) Result {
+	c13Setup()
+	c13ChildSetup()
+	text := fmt.Sprintf("fastcgi / %s php {\n env APP_ENV \"prod mode\"\n read_timeout 5s\n}\n", c13ChildLn.Addr().String())
+	ctl := casket.NewTestController("http", text)
+	cfg := httpserver.GetConfig(ctl)
+	cfg.Root = c13Root
+	cfg.Addr = httpserver.Address{Original: "site.test:8080", Host: "site.test", Port: "8080"}
+	action, _ := casket.DirectiveAction("http", "fastcgi")
+	if err := action(ctl); err != nil {
+		return Result{Term: "(CChild [])", Obs: err.Error(), Class: "child:setup-error", Sig: "child:setup-error", Direct: "setup: " + err.Error()}
+	}
+	h := compile(cfg.Middleware(), handlerFunc(func(w http.ResponseWriter, r *http.Request) (int, error) { return 404, nil }))
+	body := c13Expand(in.Body)
+	hdr := http.Header{}
+	for _, hv := range in.Headers {
+		hdr[hv[0]] = append(hdr[hv[0]], hv[1:]...)
+	}
+	u := &url.URL{Path: in.Path, RawQuery: in.Query}
+	req := &http.Request{Method: in.Method, URL: u, Proto: "HTTP/1.1", ProtoMajor: 1, ProtoMinor: 1, Header: hdr,
+		Host: in.Host, RemoteAddr: "192.0.2.7:51234", ContentLength: int64(len(body)), Body: c13BodyReader(in, body)}
+	ctx := context.WithValue(context.Background(), httpserver.OriginalURLCtxKey, *u)
+	ctx = context.WithValue(ctx, casket.CtxKey("path_prefix"), "/")
+	req = req.WithContext(ctx)
+	c13ChildMu.Lock()
+	c13ChildIn = in
+	c13ChildMu.Unlock()
+	for len(c13ChildGot) > 0 {
+		<-c13ChildGot
+	}
+	rec := httptest.NewRecorder()
+	status, herr := 0, error(nil)
+	direct := ""
+	func() {
+		defer func() {
+			if e := recover(); e != nil {
+				direct = fmt.Sprint("panic: ", e)
+			}
+		}()
+		status, herr = h.ServeHTTP(rec, req)
+	}()
+	var seen c13ChildSeen
+	select {
+	case seen = <-c13ChildGot:
+	case <-time.After(3 * time.Second):
+		if direct == "" {
+			direct = "the net/http/fcgi responder never saw the request"
+		}
+	}
+	var checks []string
+	add := func(label string, exp, got []byte) {
+		checks = append(checks, "("+cStr(label)+", "+c13BytesTerm(exp)+", "+c13BytesTerm(got)+")")
+	}
+	add("returned status", []byte("0"), []byte(strconv.Itoa(status)))
+	add("method", []byte(in.Method), []byte(seen.method))
+	add("request uri", []byte(u.RequestURI()), []byte(seen.uri))
+	add("host", []byte(in.Host), []byte(seen.host))
+	wantBody := body
+	if in.Method == "HEAD" || in.Method == "OPTIONS" {
+		wantBody = nil
+	}
+	add("request body", wantBody, seen.body)
+	for k, v := range hdr {
+		if k == "Content-Length" || k == "Content-Type" || strings.Contains(k, "_") {
+			continue // net/http/cgi folds these / cannot tell '_' from '-'
+		}
+		add("header "+k, []byte(strings.Join(v, ", ")), []byte(strings.Join(seen.hdr[k], ", ")))
+	}
+	add("env SCRIPT_FILENAME", []byte(c13Root+in.Path), []byte(seen.env["SCRIPT_FILENAME"]))
+	add("env DOCUMENT_ROOT", []byte(c13Root), []byte(seen.env["DOCUMENT_ROOT"]))
+	add("env APP_ENV", []byte("prod mode"), []byte(seen.env["APP_ENV"]))
+	add("env GATEWAY_INTERFACE", []byte("CGI/1.1"), []byte(seen.env["GATEWAY_INTERFACE"]))
+	code := 200
+	want := http.Header{}
+	for _, f := range in.Fields {
+		if http.CanonicalHeaderKey(f[0]) == "Status" {
+			code, _ = strconv.Atoi(strings.SplitN(f[1], " ", 2)[0])
+		} else {
+			want.Add(f[0], f[1])
+		}
+	}
+	add("client status", []byte(strconv.Itoa(code)), []byte(strconv.Itoa(rec.Code)))
+	add("client body", c13Expand(in.RBody), rec.Body.Bytes())
+	for k, v := range want {
+		add("client header "+k, []byte(strings.Join(v, "|")), []byte(strings.Join(rec.Header()[k], "|")))
+	}
+	obs := map[string]interface{}{"status": status, "client_status": rec.Code, "client_body_len": rec.Body.Len(), "responder_body_len": len(seen.body)}
+	if herr != nil {
+		obs["error"] = herr.Error()
+	}
+	return Result{Term: cApp("CChild", cList(checks)), Obs: obs, Sig: "child:plain", Direct: direct, Nontrivial: true,
+		Class: "child:" + in.Method}
+}
+
+func c13GenChild(r *Rand) *c13In {
+	in := &c13In{Kind: "child", Path: r.Pick([]string{"/virt.php", "/app/virtual.php", "/a.php", "/app/x.php"}),
+		Method: r.Pick([]string{"GET", "POST", "POST", "PUT", "DELETE", "HEAD"}), Host: "site.test:8080",
+		Query: r.Pick([]string{"", "a=1&b=2", "q=%20x"})}
+	n := 0
+	if in.Method == "POST" || in.Method == "PUT" {
+		n = []int{0, 1, 100, 8191, 8192, 8193, 65499, 65500, 65501, 65535, 65536, 131000, 131001}[r.Intn(13)]
+		if r.Chance(30) {
+			n = r.Range(1, 100000)
+		}
+	}
+	in.Body = c13Compress(c13Pat(r.Intn(251), n))
+	in.WT = r.Chance(30)
+	for k := r.Intn(3); k > 0; k-- {
+		in.Script = append(in.Script, []int{1, 512, 65500}[r.Intn(3)])
+	}
+	in.Headers = [][]string{{"Content-Length", strconv.Itoa(n)}, {"User-Agent", "verif/1.0 (c13 child)"}}
+	if n > 0 {
+		in.Headers = append(in.Headers, []string{"Content-Type", "application/octet-stream"})
+	}
+	if r.Bool() {
+		in.Headers = append(in.Headers, []string{"X-Forwarded-For", "203.0.113.9", "198.51.100.2"})
+	}
+	if r.Chance(40) { // value length around the 1/4-byte size boundary
+		in.Headers = append(in.Headers, []string{"X-Long", strings.Repeat("v", r.Range(118, 130))})
+	}
+	if r.Chance(60) {
+		in.Fields = append(in.Fields, [2]string{"Status", r.Pick([]string{"201 Created", "404 Not Found", "302 Found", "200 OK"})})
+	}
+	in.Fields = append(in.Fields, [2]string{"Content-Type", "text/plain"})
+	if r.Bool() {
+		in.Fields = append(in.Fields, [2]string{"Set-Cookie", "a=1"}, [2]string{"Set-Cookie", "b=2"})
+	}
+	in.RBody = c13Compress(c13Pat(r.Intn(251), []int{0, 1, 500, 8192, 65535, 65536, 70000, 140000}[r.Intn(8)]))
+	return in
+}
+
 func c13Run(in0 interface{}) Result {
 	in := in0.(*c13In)
 	switch in.Kind {
+	case "child":
+		return c13RunChild(in)
 	case "wire":
 		return c13RunWire(in)
 	case "demux":
@@ -796,7 +990,13 @@ func c13GenWire(r *Rand) *c13In {
 			kl := small[r.Intn(len(small))]
 			vl := []int{100, 1000, 9000, 20000, 30000}[r.Intn(5)] + r.Intn(9)
 			if rem := 65500 - tot%65500; r.Chance(40) && rem > kl+8 && rem < 40000 {
-				vl = rem - kl - c13PairLen(kl) - 4 + r.Range(-1, 1) // land exactly on / next to the boundary
+				vl = rem - kl - c13PairLen(kl) - 4 // land exactly on the record boundary, or next to it
+				if vl <= 127 {
+					vl += 3
+				}
+				if r.Chance(50) {
+					vl += r.Range(-1, 1)
+				}
 			}
 			addPair(kl, vl)
 			tot += kl + vl + 8
@@ -831,6 +1031,7 @@ func c13GenWire(r *Rand) *c13In {
 		for k := r.Intn(5); k > 0; k-- {
 			in.Script = append(in.Script, []int{1, 7, 100, 4096, 65499, 65500, 65501}[r.Intn(7)])
 		}
+		in.WT = r.Chance(35)
 	}
 	return in
 }
@@ -1030,6 +1231,12 @@ func c13GenServe(r *Rand) *c13In {
 		"/app/dir.php/", "/app/dir.php/inner.txt", "/app/sp ace.php", "/other/z.php", "/app/", "/", "/app", "/app/ünï.php",
 		"/app/nope.php", "/app/nope.txt", "/app/x.PHP", "/APP/x.php", "/app/X.php", "/other/", "/app/sub"}
 	p := bases[r.Intn(len(bases))]
+	if r.Chance(45) { // a path under the first rule
+		rp := strings.TrimSuffix(strings.ToLower(in.Rules[0].Path), "/")
+		for try := 0; try < 20 && !strings.HasPrefix(strings.ToLower(p), rp); try++ {
+			p = bases[r.Intn(len(bases))]
+		}
+	}
 	switch r.Intn(14) {
 	case 0:
 		p += r.Pick([]string{"/extra/info", "/a.php/b", "/", "/.php"})
@@ -1078,6 +1285,7 @@ func c13GenServe(r *Rand) *c13In {
 	if n > 0 && r.Chance(20) {
 		in.CL = -1
 	}
+	in.WT = r.Chance(25)
 	// headers (canonical keys as net/http delivers them)
 	pool := [][]string{{"Accept", "text/html,application/xhtml+xml;q=0.9"}, {"User-Agent", "verif/1.0 (c13)"},
 		{"X-Forwarded-For", "203.0.113.9", "198.51.100.2"}, {"Cookie", "a=1; b=2"}, {"X-Custom-Header", "v"},
@@ -1169,9 +1377,9 @@ func c13GenServe(r *Rand) *c13In {
 }
 
 func c13Gen(r *Rand, tier string) []interface{} {
-	nw, nd, ns := 110, 330, 560
+	nw, nd, ns, nc := 110, 300, 520, 40
 	if tier == "thorough" {
-		nw, nd, ns = 1100, 3300, 5600
+		nw, nd, ns, nc = 1100, 3000, 5200, 400
 	}
 	var out []interface{}
 	for i := 0; i < nw; i++ {
@@ -1183,6 +1391,9 @@ func c13Gen(r *Rand, tier string) []interface{} {
 	for i := 0; i < ns; i++ {
 		out = append(out, c13GenServe(r))
 	}
+	for i := 0; i < nc; i++ {
+		out = append(out, c13GenChild(r))
+	}
 	return out
 }
 
@@ -1191,7 +1402,8 @@ func init() {
 		ID: "C13", Imports: "V.Lib V.C13_Model", Judge: "judge", Shard: 50,
 		Rule: "cases = (wire) real FCGIClient.Do over an in-memory connection, raw bytes decoded in Coq by a reference responder; " +
 			"(demux) real streamReader over scripted record framings, connection segmentations and caller buffer sizes; " +
-			"(serve) real fastcgi setup + Handler.ServeHTTP on a real directory tree against a byte-level loopback responder. " +
+			"(serve) real fastcgi setup + Handler.ServeHTTP on a real directory tree against a byte-level loopback responder; " +
+			"(child) the same handler against Go's net/http/fcgi responder. " +
 			"non-trivial = wire case with at least one pair or body byte, demux case with >= 2 records, serve case that reached the responder or the next handler; distinct = distinct Coq case term",
 		Gen: c13Gen,
 		Decode: func(raw json.RawMessage) (interface{}, error) {
